@@ -536,3 +536,65 @@ func writeEvidence(cfg CheckConfig, ev *Evidence) {
 	b, _ := json.MarshalIndent(ev, "", " ")
 	os.WriteFile(filepath.Join(dir, cfg.Property+".json"), append(b, '\n'), 0o644)
 }
+
+// RunReplay re-decides the single obligation named in a replay file against the current tree: the file written with
+// a VIOLATION line names the obligation, the solver's verdict and the query; replaying regenerates the obligation from
+// the repository as it is now and runs the solvers on it again.
+func RunReplay(cfg CheckConfig, file string) int {
+	out := cfg.Out
+	b, err := os.ReadFile(file)
+	if err != nil {
+		fmt.Fprintf(out, "replay: %v\n", err)
+		return 2
+	}
+	var obl string
+	for _, l := range strings.Split(string(b), "\n") {
+		if strings.HasPrefix(l, "obligation: ") {
+			obl = strings.TrimSpace(strings.TrimPrefix(l, "obligation: "))
+			break
+		}
+	}
+	fnName, _, ok := strings.Cut(obl, "#")
+	if !ok || strings.Contains(obl, "#scan.") || strings.HasSuffix(obl, "#missing") || strings.HasSuffix(obl, "#outside-subset") || strings.HasSuffix(obl, "#no-obligations") {
+		// not a solver obligation: the whole check is the replay
+		return RunCheck(cfg)
+	}
+	g, err := Load(cfg.Repo, []string{filepath.Join(cfg.VerifDir, "ext"), filepath.Join(cfg.VerifDir, "specs")})
+	if err != nil {
+		fmt.Fprintf(out, "VIOLATION property=%s replay=%s obligation=load no-failing-input-found\n", cfg.Property, file)
+		return 1
+	}
+	dir, _ := os.MkdirTemp("", "govc-replay")
+	defer os.RemoveAll(dir)
+	run := NewRun(g, dir, 4*cfg.Timeout, cfg.Seed)
+	run.Only = func(o *Obligation) bool { return o.Name == obl }
+	for _, con := range g.CS.Order {
+		if con.Trusted {
+			continue
+		}
+		fn := g.FindFunc(con)
+		if fn == nil || g.fnName(fn) != fnName {
+			continue
+		}
+		rep := run.VerifyContract(con)
+		for _, r := range rep.Results {
+			if r.Obl.Name != obl {
+				continue
+			}
+			fmt.Fprintf(out, "replay %s: %s by %s in %.2fs  %s  %s\n", obl, r.Verdict.Status, r.Verdict.Solver, r.Verdict.Time, r.Obl.Pos, r.Obl.Clause)
+			if r.OK {
+				fmt.Fprintf(out, "replay: the obligation is discharged on the current tree\n")
+				return 0
+			}
+			if r.Verdict.Output != "" {
+				fmt.Fprintln(out, r.Verdict.Output)
+			}
+			fmt.Fprintf(out, "VIOLATION property=%s replay=%s obligation=%s no-failing-input-found\n", cfg.Property, file, obl)
+			return 1
+		}
+		fmt.Fprintf(out, "replay: obligation %s is no longer generated for %s (the function changed shape)\n", obl, fnName)
+		return RunCheck(cfg)
+	}
+	fmt.Fprintf(out, "replay: no contract for %s; running the whole check\n", fnName)
+	return RunCheck(cfg)
+}
